@@ -6,7 +6,7 @@ Layer B: the model IS the source through T-std; T-std is validated (TESTING) by 
          generated functions with vm_compute on generated operation sequences and comparing every
          observation and every intermediate state with a sorted-association-list specification
          evaluated here in Python.
-Layer C: monitor_compiled() — compiled driver programs in a wasm engine — is added by a later step.
+Layer C: monitor_compiled() — compiled driver programs (checks/c18_driver.py) in node and headless Chrome.
 """
 import filecmp
 import json
@@ -630,10 +630,14 @@ def shrink(kind, ops, rounds=12):
     return ops
 
 
-def monitor_compiled(ck, tier, seed):
-    """Layer C (compiled driver programs run in a wasm engine, output compared with the sorted-list
-    specification).  NOT BUILT YET: a later step fills this in; it is a no-op for now."""
-    ck.notes.append('layer C (compiled driver programs in a wasm engine) not run: not built yet')
+def monitor_compiled(ck, tier, seed, cases=None, observed=None, replay=None):
+    """Layer C: the same operation sequences printed as samlang programs over the real std/*.sam, compiled by the real
+    compiler and run in node (TypeScript) and headless Chrome (WebAssembly); compared with the specification and with
+    the translated model (checks/c18_driver.py)."""
+    from checks import c18_driver
+    if replay:
+        return c18_driver.driver_replay(ck, replay)
+    return c18_driver.driver(ck, tier, seed, cases, observed)
 
 
 def excluded_ops(thms):
@@ -716,7 +720,7 @@ def run(tier, seed, replay=None):
     if replay:
         run_fixed_inputs(ck, load_inputs(replay), 'replay')
         ck.rule = 'replay of ' + replay
-        monitor_compiled(ck, tier, seed)
+        monitor_compiled(ck, tier, seed, replay=replay)
         return ck.finish()
     corpus = os.path.join('/verif/corpus', PID)
     inputs = []
@@ -791,5 +795,5 @@ def run(tier, seed, replay=None):
         ck.sample({'kind': cases[0][0], 'ops': [list(o) for o in cases[0][1][:12]]})
         big = max(cases, key=lambda c: len(c[1]))
         ck.sample({'kind': big[0], 'ops': [list(o) for o in big[1][:12]], 'note': 'prefix of the longest sequence (%d ops)' % len(big[1])})
-    monitor_compiled(ck, tier, seed)
+    monitor_compiled(ck, tier, seed, cases, observed)
     return ck.finish()
